@@ -302,6 +302,8 @@ func init() {
 			return call(fr.i, fr, token.NoPos, nw, nil)
 		},
 		"runtime.SetFinalizer": extNoop,
+		// os's initialiser wraps descriptors 0..2 (os.Stdin/Stdout/Stderr): F_GETFL reports no flags
+		"internal/syscall/unix.Fcntl": func(fr *frame, a []value) value { return tuple{0, iface{}} },
 		"runtime.KeepAlive":    extNoop,
 		"runtime.Callers":      func(fr *frame, a []value) value { return 0 },
 		"runtime.Caller":       func(fr *frame, a []value) value { return tuple{uintptr(0), "", 0, false} },
@@ -451,7 +453,56 @@ func comparableType(t types.Type) bool { return types.Comparable(t) }
 
 var _ = strings.Contains
 
+// findField returns the index path of the (possibly promoted) field name in struct type t.
+func findField(t types.Type, name string, depth int) []int {
+	st, ok := t.Underlying().(*types.Struct)
+	if !ok || depth > 4 {
+		return nil
+	}
+	for k := 0; k < st.NumFields(); k++ {
+		if st.Field(k).Name() == name {
+			return []int{k}
+		}
+	}
+	for k := 0; k < st.NumFields(); k++ {
+		if f := st.Field(k); f.Embedded() {
+			ft := f.Type()
+			if p, ok := ft.Underlying().(*types.Pointer); ok {
+				_ = p
+				continue // promoted through a pointer: not needed so far
+			}
+			if sub := findField(ft, name, depth+1); sub != nil {
+				return append([]int{k}, sub...)
+			}
+		}
+	}
+	return nil
+}
+
 func init() {
+	// SetUnexported(ptr, field, val): store val into the named field of *ptr
+	externals[rtPkg+"SetUnexported"] = func(fr *frame, a []value) value {
+		in := a[0].(iface)
+		pt, ok := in.t.Underlying().(*types.Pointer)
+		if !ok {
+			panic(unsupported{"SetUnexported: not a pointer"})
+		}
+		name := mustConcStr(a[1], "SetUnexported field")
+		path := findField(pt.Elem(), name, 0)
+		if path == nil {
+			panic(unsupported{"SetUnexported: no field " + name})
+		}
+		cell := in.v.(*value)
+		t := pt.Elem()
+		for _, k := range path {
+			st := t.Underlying().(*types.Struct)
+			cell = &(*cell).(structure)[k]
+			t = st.Field(k).Type()
+		}
+		v := a[2].(iface).v
+		fr.i.set(cell, v)
+		return nil
+	}
 	externals[rtPkg+"DeepCopy"] = func(fr *frame, a []value) value {
 		in := a[0].(iface)
 		if in.t == nil {
